@@ -111,7 +111,7 @@ func (o *ObjectSchema) Unserialize(data any) (result any, err error) {
 	v := reflect.ValueOf(data)
 	var rawData map[string]any
 	if v.Kind() != reflect.Map {
-		if len(o.Properties()) == 1 {
+		if len(o.Properties()) == 1 && o.inlineShorthandTerminates() {
 			rawData, err = o.unserializeInlinedDataToMap(data)
 		} else {
 			return nil, &ConstraintError{
@@ -132,6 +132,41 @@ func (o *ObjectSchema) Unserialize(data any) (result any, err error) {
 		return o.unserializeToStruct(rawData)
 	}
 	return rawData, nil
+}
+
+// inlineShorthandTerminates reports whether treating a lone value as this object's single property ends at a
+// non-object type. A one-property object whose property refers back to an object already on the chain (for example
+// A{next: ref A}) would otherwise hand the same value to itself until the stack overflows.
+func (o *ObjectSchema) inlineShorthandTerminates() bool {
+	visited := map[*ObjectSchema]bool{}
+	current := o
+	for {
+		if visited[current] {
+			return false
+		}
+		visited[current] = true
+		if len(current.PropertiesValue) != 1 {
+			return true
+		}
+		var next *ObjectSchema
+		for _, property := range current.PropertiesValue {
+			switch t := property.Type().(type) {
+			case *ObjectSchema:
+				next = t
+			case *RefSchema:
+				if !t.ObjectReady() {
+					return true
+				}
+				next, _ = t.GetObject().(*ObjectSchema)
+			case *ScopeSchema:
+				next = t.ObjectsValue[t.RootValue]
+			}
+		}
+		if next == nil {
+			return true
+		}
+		current = next
+	}
 }
 
 func (o *ObjectSchema) unserializeInlinedDataToMap(data any) (map[string]any, error) {
